@@ -136,6 +136,7 @@ def run(cx):
         "set-typedness inference + search for order-sensitive consumers of set-typed values, inventory of "
         "module-level mutable state and its writers, mutable defaults, caching decorators, nondeterminism sources; "
         "covers every function of transpile/ and Reduino/__init__.py"
+        " Since round 10: a corpus of scripts is transpiled repeatedly and in two orders inside one simulated process (module-level tables are shared objects, functools caches keep their memo, += / |= update containers in place) and every text must equal the script's text in a fresh process; set-order probes use names that tie under case / leading-zero / underscore-insensitive keys."
     )
     mods = [mod(f) for f in FILES]
     for m in mods:
